@@ -34,4 +34,6 @@ func init() {
 	alias("C05", "R13", "C13", "R9", "store, state and application agree after a crash also while catching up: a block is stored before it is executed")
 	alias("C06", "R8", "C12", "R2", "a correct proposer's block fits the limits only if the mempool reaps by the encoded (proto) size of the transactions")
 	alias("C06", "R9", "C05", "R12", "re-running the last block on the recorded responses must yield the same next state as the live run (validator and consensus-parameter updates included)")
+	alias("C18", "R7", "C08", "R8", "the state store must produce the validator set of every retained height, also on a node that started from a snapshot: bootstrap stores the set in force at each height")
+	alias("C18", "R8", "C08", "R9", "after an operator rollback the state store must still produce the validator set of every retained height")
 }
